@@ -83,7 +83,7 @@ PROPS["C16"] = {
     "kani": "c16",
     "mir": "c16",
     "level": "model_checking",
-    "explanation": "Bounded model checking (Kani/CBMC) of the integer-epoch unit heuristic that every numeric spelling of a time goes through: for every i64 in each documented digit window the result is the floor of the denoted instant in seconds (the value an ISO-8601 spelling of the same instant gets), including instants before 1970 and both digit-count boundaries of every unit; 20+ digit integers are rejected for every i128.",
+    "explanation": "Bounded model checking (Kani/CBMC) of the integer-epoch unit heuristic that every numeric spelling of a time goes through: for every i64 in each documented digit window the result is the floor of the denoted instant in seconds (the value an ISO-8601 spelling of the same instant gets), including instants before 1970 and both digit-count boundaries of every unit; 20+ digit integers are rejected for every i128. Engine B B-3: TimeParser::normalize_integer_epoch over the whole i128 range through a mod-2^128 integer encoding of its MIR (signed arithmetic, unsigned_abs / div_euclid / i64::try_from modelled exactly; num_digits_u128 unrolled 40x with the unwinding assertion discharged and replaced by a per-digit-count lemma): seconds unchanged below 10^11, floor(n/10^3), floor(n/10^6), floor(n/10^9) in the ms / us / ns windows, None from 20 digits.",
     "outside": [
         "ISO-8601 / RFC 3339 spellings and UTC offsets (chrono parsing does not finish under Kani), agreement of the four normalisation call sites on strings",
         "the choice of unit at a digit-count boundary is the documented heuristic itself (an 11-digit millisecond value is read as seconds); it is taken as given, not checked against the caller's intent",
@@ -97,11 +97,11 @@ MIR_TRUSTED = ['rustc (repository toolchain) -Zdump-mir output is a faithful ren
 PROPS["C19"] = {
     "mir": "c19",
     "level": "other",
-    "explanation": "Symbolic path-condition checking over the real MIR of WalCleaner::cleanup_up_to (rustc dump, z3): the negation of each guard / ordering obligation is sent to the solver over all branch outcomes of every opaque call and both values of CONFIG.wal.conservative_mode; unsat = no feasible path deletes a log after a failed archive, before archiving, or at or above the cut-off.",
+    "explanation": "Symbolic path-condition checking over the real MIR of WalCleaner::cleanup_up_to (rustc dump, z3): the negation of each guard / ordering obligation is sent to the solver over all branch outcomes of every opaque call and both values of CONFIG.wal.conservative_mode; unsat = no feasible path deletes a log after a failed archive, before archiving, or at or above the cut-off. B-5: WalArchiver::archive_logs_up_to appends the outcome of every archive_log call (Ok or Err) before moving on or returning, and archives only logs below the cut-off.",
     "trusted_base": MIR_TRUSTED,
     "outside": [
         "archive content fidelity (MessagePack + zstd) and recovery order: data relations inside serde / zstd code",
-        "that WalArchiver::archive_logs_up_to returns Err for every file it failed to archive (callee treated as opaque)",
+        "that WalArchiver::archive_log itself returns Err whenever the archive was not written (its own Ok-implies-written summary is B-4)",
         "fault patterns of the real file system (the obligations quantify over every Result outcome instead)",
     ],
 }
@@ -166,11 +166,11 @@ PROPS["C13"] = {
 PROPS["C17"] = {
     "mir": "c17",
     "level": "other",
-    "explanation": "Symbolic data-flow / reachability checking over the real MIR of every parser body (hand-written and peg-generated, ~320 bodies) and of dispatch_command (z3): no reachable unwrap / expect consumes the result of a conversion of input text, and no feasible path of dispatch_command reaches a panic for any Command variant. Candidates are replayed natively through the public parse_command with boundary inputs derived from the converted types; the inputs of repaired findings stay in the replay set.",
+    "explanation": "Symbolic data-flow / reachability checking over the real MIR of every parser body (hand-written and peg-generated, ~320 bodies) and of dispatch_command (z3): no reachable unwrap / expect consumes the result of a conversion of input text, and no feasible path of dispatch_command reaches a panic for any Command variant. Candidates are replayed natively through the public parse_command with boundary inputs derived from the converted types; the inputs of repaired findings stay in the replay set. B-5: the OR / AND / NOT rules of the QUERY and PLOT expression grammars form precedence strata (operand rules, recursion, keyword guards, re-entry into the whole-expression rule only after a matched open parenthesis); a structural deviation is confirmed on the real parser with unparenthesised sample expressions.",
     "trusted_base": MIR_TRUSTED + ["native replay program /verif/native (plain cargo build of /repo with the repository toolchain)"],
     "outside": [
         "totality over all byte strings (the PEG parser does not run under Kani: 2 symbolic bytes > 25 min); slice-index and arithmetic panics whose operands are not conversions of input text",
-        "precedence and print/parse round trip (no printer exists for commands), keyword case-insensitivity",
+        "print/parse round trip (no printer exists for commands), keyword case-insensitivity, precedence in grammars other than the two expression grammars",
         "stack depth on pathologically deep nesting (recursive descent; an abort cannot be caught by the replay program)",
         "super-linear parse time in general: only detected through the fixed nested-parentheses inputs of the native replay set",
     ],
